@@ -12,6 +12,12 @@ type Waiter struct {
 	mu  sync.Mutex
 	c   *sync.Cond
 	ctx context.Context
+
+	// rmu serializes readers (Next). It is never taken by Set.
+	rmu sync.Mutex
+	// pending (guarded by mu) records that Set ran since Next last looked at
+	// the diode.
+	pending bool
 }
 
 // WaiterConfigOption can be used to setup the waiter.
@@ -54,9 +60,13 @@ func NewWaiter(d Diode, opts ...WaiterConfigOption) *Waiter {
 // to wake up any readers.
 func (w *Waiter) Set(data GenericDataType) {
 	w.Diode.Set(data)
-	// Broadcast under the mutex: Next holds it from its failed TryNext until it
-	// is parked in Wait, so the wake-up cannot fall into that window and be lost.
+	// Record the write and Broadcast under the mutex: Next checks pending and
+	// parks in Wait without releasing the mutex in between, so the wake-up
+	// cannot fall into that window and be lost. The mutex is never held while
+	// the diode (and with it the alerter) runs, so an alerter may itself write
+	// to this diode.
 	w.mu.Lock()
+	w.pending = true
 	w.c.Broadcast()
 	w.mu.Unlock()
 }
@@ -65,8 +75,8 @@ func (w *Waiter) Set(data GenericDataType) {
 // new data, it will Wait for set to be called or the context to be done.
 // If the context is done, then nil will be returned.
 func (w *Waiter) Next() GenericDataType {
-	w.mu.Lock()
-	defer w.mu.Unlock()
+	w.rmu.Lock()
+	defer w.rmu.Unlock()
 
 	for {
 		data, ok := w.Diode.TryNext()
@@ -80,7 +90,12 @@ func (w *Waiter) Next() GenericDataType {
 				return nil
 			}
 
-			w.c.Wait()
+			w.mu.Lock()
+			for !w.pending && !w.isDone() {
+				w.c.Wait()
+			}
+			w.pending = false
+			w.mu.Unlock()
 			continue
 		}
 		return data
